@@ -52,24 +52,40 @@ def vc_text(engine, ob, defs=None, fuel=None, get_values=()):
 
 
 def discharge(engine: Engine, reports, schedule=None, both=False, workers=16):
-    schedule = schedule or solver.DEFAULT_SCHEDULE
+    """Stage 1: z3 short.  Stage 2: cheap refutation attempt with ground definitions (sat => likely broken,
+    give it one more prover attempt only).  Stage 3: the rest of the schedule."""
+    schedule = list(schedule or solver.DEFAULT_SCHEDULE)
     obs = [o for r in reports for o in r.obligations]
-    texts = [vc_text(engine, o, defs="ground" if o.expect == "not-unsat" else None) for o in obs]
 
-    def work(i):
-        o = obs[i]
+    def work(o):
         if o.expect == "not-unsat":
-            # vacuity guards: must NOT be provable; a short budget is enough (sat or unknown both fine)
-            res = solver.solve_text(texts[i], schedule=(("z3", 2), ("cvc5", 2)), both=True)
+            txt = vc_text(engine, o, defs="ground")
+            res = solver.solve_text(txt, schedule=(("z3", 2), ("cvc5", 2)), both=True)
             o.result = res
             o.ok = res.status != "unsat"
-        else:
-            res = solver.solve_text(texts[i], schedule=schedule, both=both)
+            o.smt_size = len(txt)
+            return o
+        txt = vc_text(engine, o)
+        o.smt_size = len(txt)
+        if both:
+            res = solver.solve_text(txt, schedule=schedule, both=True)
             o.result = res
             o.ok = res.status == "unsat"
-        o.smt_size = len(texts[i])
+            return o
+        res = solver.solve_text(txt, schedule=schedule[:1])
+        if res.status != "unsat":
+            gtxt = vc_text(engine, o, defs="ground", fuel=3)
+            ref = solver.solve_text(gtxt, schedule=(("z3", 4),), want="sat")
+            o.refute = ref
+            rest = schedule[1:2] if ref.status == "sat" else schedule[1:]
+            res2 = solver.solve_text(txt, schedule=rest) if rest else res
+            res2.attempts = res.attempts + [("z3-ground-refute", ref.status, round(ref.time_s, 3))] + res2.attempts
+            res2.time_s += res.time_s + ref.time_s
+            res = res2
+        o.result = res
+        o.ok = res.status == "unsat"
         return o
 
     with ThreadPoolExecutor(max_workers=workers) as ex:
-        list(ex.map(work, range(len(obs))))
+        list(ex.map(work, obs))
     return obs
